@@ -289,7 +289,8 @@ fn data_placement(rng: &mut Rng) -> u16 {
     }
 }
 
-pub fn random_case(rng: &mut Rng, ts: &[usize], focus_block: bool) -> SysCase {
+pub fn random_case(rng: &mut Rng, ts: &[usize], focus: u8) -> SysCase {
+    let focus_block = focus == 1;
     let m128 = rng.bool();
     let mut st = random_state(rng);
     st.w[PC] = placement(rng);
@@ -320,6 +321,38 @@ pub fn random_case(rng: &mut Rng, ts: &[usize], focus_block: bool) -> SysCase {
         }
         code.extend([0xED, [0xA0u8, 0xA1, 0xA2, 0xA3, 0xA8, 0xA9, 0xAA, 0xAB, 0xB0, 0xB1, 0xB2, 0xB3, 0xB8, 0xB9, 0xBA, 0xBB][rng.below(16) as usize]]);
         st.w[BC] = [0x0001u16, 0x0002, 0x0003, 0x0180, 0x02FE][rng.below(5) as usize];
+    }
+    if focus == 2 {
+        // 16-bit memory traffic right across the 16K window boundaries: the two bytes of a word live in
+        // different windows (different banks, ROM/RAM, contended/uncontended)
+        let edge = |r: &mut Rng| -> u16 { [0x3FFFu16, 0x7FFF, 0xBFFF, 0xFFFF][r.below(4) as usize].wrapping_sub(r.below(2) as u16) };
+        st.w[SP] = edge(rng).wrapping_add(rng.below(3) as u16);
+        st.w[IX] = edge(rng);
+        st.w[IY] = edge(rng);
+        st.w[IR] = (st.w[IR] & 0x00FF) | ((edge(rng) >> 8) << 8);
+        code.clear();
+        for _ in 0..6 {
+            let a = edge(rng).to_le_bytes();
+            let ins: Vec<u8> = match rng.below(14) {
+                0 => vec![0x22, a[0], a[1]],             // LD (nn),HL
+                1 => vec![0x2A, a[0], a[1]],             // LD HL,(nn)
+                2 => vec![0xED, 0x43, a[0], a[1]],       // LD (nn),BC
+                3 => vec![0xED, 0x5B, a[0], a[1]],       // LD DE,(nn)
+                4 => vec![0xED, 0x73, a[0], a[1]],       // LD (nn),SP
+                5 => vec![0xDD, 0x22, a[0], a[1]],       // LD (nn),IX
+                6 => vec![0xFD, 0x2A, a[0], a[1]],       // LD IY,(nn)
+                7 => vec![0xE5],                         // PUSH HL
+                8 => vec![0xD1],                         // POP DE
+                9 => vec![0xE3],                         // EX (SP),HL
+                10 => vec![0xDD, 0xE3],                  // EX (SP),IX
+                11 => vec![0xF5],                        // PUSH AF
+                12 => vec![0x32, a[0], a[1]],            // LD (nn),A
+                _ => vec![0x21, rng.u8() | 1, rng.u8() | 1], // LD HL,nn (fresh non-zero data)
+            };
+            code.extend(ins);
+        }
+        st.w[HL] = rng.u16() | 0x0101;
+        st.w[BC] = rng.u16() | 0x0101;
     }
     while code.len() < 48 {
         code.extend(random_instr(rng));
@@ -382,15 +415,17 @@ pub fn record(model: &mut Model, rep: &mut Report, prop: &str, c: &SysCase, f: S
 }
 
 /// runs `n` random lock-step cases; `ts` = interesting start T-states per machine chosen by the caller
-pub fn lockstep(o: &Opts, rep: &mut Report, prop: &str, n: u64, ts48: &[usize], ts128: &[usize]) {
+pub fn lockstep(o: &Opts, rep: &mut Report, prop: &str, n: u64, ts48: &[usize], ts128: &[usize], word_focus: bool) {
     let mut model = Model::spawn(&o.model, "SYS");
     let mut rng = Rng::new(o.seed ^ 0x5157);
     let mut failures = 0;
     for k in 0..n {
         let mut r = rng.fork();
-        // every other case: a block instruction with HL and DE on window boundaries inside the picture
-        let focus = k % 2 == 1;
-        let mut c = random_case(&mut r, ts48, focus);
+        // a third of the cases: a block instruction with HL and DE on window boundaries inside the picture;
+        // a sixth: 16-bit loads/stores/stack operations straddling the window boundaries
+        let focus_kind: u8 = if word_focus { 2 } else { match k % 6 { 1 | 3 => 1, 5 => 2, _ => 0 } };
+        let focus = focus_kind == 1;
+        let mut c = random_case(&mut r, ts48, focus_kind);
         if c.m128 {
             let l = 70908;
             c.t = if r.chance(2, 3) { *r.pick(ts128) } else { r.below(l) as usize };
